@@ -1,8 +1,9 @@
 """C14 — config compiler: includes copy, patches apply in order, sources stay untouched."""
-import os, sys, json, glob, copy, time
+import os, sys, json, glob, copy, time, re
 import vlib
 from checks import c14_gen as G
 from checks import c14_shrink as S
+from checks import c14_cov as V
 
 META = {
     "technique": ("Lean 4 reference compiler on value trees (exact ports of EditNode / MergeTree / AppendTo* / CreateReference / "
@@ -14,10 +15,13 @@ META = {
                    "itself; an include makes the slot the compiled referenced node with the local entries merged over it; patch "
                    "dependencies and patch-literal keys are folded in order; set / append / merge / replace semantics of EditNode at "
                    "map and list-index keys; the result is a function of the documents reachable through reference texts; the "
-                   "chain-guarded resolution scheme terminates on arbitrary (cyclic) dependency maps within a proved fuel bound. "
+                   "chain-guarded resolution scheme terminates on arbitrary (cyclic) dependency maps within a proved fuel bound; "
+                   "CustomSettings::Customize sets exactly the given key — slashes and all — in the `patch` map the automatic patch "
+                   "reads (customize_sets_patch_key / _fresh / _no_file / _read_back), TraverseWrite is EditNode's traversal. "
                    "PARTIAL: that the C++ dependency-graph algorithm (priorities, pending children, in-place references, "
                    "copy-on-write) computes the reference is tied by the differential check only, not proved."),
-    "level_note": ("Trusted: Lean kernel; harness/c14_harness.cc (writes the YAML, dumps trees); yaml-cpp parsing/emitting of the flow-style "
+    "level_note": ("Trusted: Lean kernel; harness/c14_harness.cc (writes the YAML, dumps trees, drives CustomSettings, reads every staging "
+                   "file back both plainly and through the deployed-config loader component); yaml-cpp parsing/emitting of the flow-style "
                    "documents the harness writes (scalars from a safe alphabet; the YAML codec is C18's subject); the generator's "
                    "coverage of the directive grammar. Equality is claimed where the reference reports a clean run (no circular "
                    "dependency, no swallowed failure); for failing compilations only the success flag is compared (partial trees "
@@ -30,7 +34,8 @@ SRC_FILES = ["src/rime/config/config_compiler.cc", "src/rime/config/config_compi
              "src/rime/config/config_cow_ref.h", "src/rime/config/config_data.cc", "src/rime/config/config_types.cc",
              "src/rime/config/auto_patch_config_plugin.cc", "src/rime/config/default_config_plugin.cc",
              "src/rime/config/legacy_preset_config_plugin.cc", "src/rime/config/build_info_plugin.cc",
-             "src/rime/config/save_output_plugin.cc", "src/rime/config/config_component.cc", "src/rime/core_module.cc"]
+             "src/rime/config/save_output_plugin.cc", "src/rime/config/config_component.cc", "src/rime/core_module.cc",
+             "src/rime/lever/custom_settings.cc", "src/rime/signature.cc"]
 FIXTURES = ["starcraft", "config_test", "config_compiler_test", "config_merge_test", "config_dependency_test",
             "config_optional_reference_test", "config_circular_dependency_test"]
 
@@ -89,6 +94,15 @@ class Runner:
                     cur["res"].append((G.unhx(p[2]), p[3] == "ok=1", lines[i + 1][4:], lines[i + 2][6:]))
                     i += 3
                     continue
+                if p[0] == "cust" and i + 1 < len(lines) and lines[i + 1].startswith("custfile "):
+                    cid = p[1]
+                    cur = out.setdefault(cid, {"res": [], "again": {}, "src": None, "abort": None})
+                    cur.setdefault("cust", []).append((G.unhx(p[2]), dict(x.split("=") for x in p[3:]), lines[i + 1][9:]))
+                    i += 2
+                    if i < len(lines) and lines[i].startswith("custprobe "):
+                        cur.setdefault("custprobe", []).append((len(cur["res"]), dict(x.split("=") for x in lines[i].split(" ")[1:])))
+                        i += 1
+                    continue
                 if p[0] == "again" and cur is not None:
                     cur["again"][G.unhx(p[1])] = lines[i].split(" ", 2)[2]
                 elif p[0] == "src" and cur is not None:
@@ -118,25 +132,39 @@ class Runner:
                 break
         return out
 
-    def model(self, cases):
-        """-> {id: [(name, flags dict, mem, saved)]}"""
+    def model(self, cases, timeout=900):
+        """-> {id: ModelOut}  (a list of (name, flags dict, mem, saved), with .cust = [(name, flags, custfile)])"""
         t0 = time.time()
-        text = vlib.run_driver("driver_c14", "".join(G.case_text(k) for k in cases))
+        text = vlib.run_driver("driver_c14", "".join(G.case_text(k) for k in cases), timeout=timeout)
         self.model_s += time.time() - t0
-        out = {}
-        lines = text.splitlines()
-        i = 0
-        while i < len(lines):
-            p = lines[i].split(" ")
-            if p[0] == "res":
-                fl = dict(x.split("=") for x in p[3:])
-                out.setdefault(p[1], []).append((G.unhx(p[2]), {k: v == "1" for k, v in fl.items()}, lines[i + 1][4:], lines[i + 2][6:]))
-                i += 3
-            else:
-                if p[0] == "bad-op":
-                    raise vlib.BuildError("driver_c14 rejected a line of the case file")
-                i += 1
-        return out
+        return parse_model(text)
+
+
+class ModelOut(list):
+    """the reference's answers for one case: the list of compile results, plus the CustomSettings sessions"""
+    def __init__(self):
+        super().__init__()
+        self.cust = []
+
+
+def parse_model(text):
+    out = {}
+    lines = text.splitlines()
+    i = 0
+    while i < len(lines):
+        p = lines[i].split(" ")
+        if p[0] == "res":
+            fl = dict(x.split("=") for x in p[3:])
+            out.setdefault(p[1], ModelOut()).append((G.unhx(p[2]), {k: v == "1" for k, v in fl.items()}, lines[i + 1][4:], lines[i + 2][6:]))
+            i += 3
+        elif p[0] == "cust":
+            out.setdefault(p[1], ModelOut()).cust.append((G.unhx(p[2]), dict(x.split("=") for x in p[3:]), lines[i + 1][9:]))
+            i += 2
+        else:
+            if p[0] == "bad-op":
+                raise vlib.BuildError("driver_c14 rejected a line of the case file")
+            i += 1
+    return out
 
 
 # ---------------------------------------------------------------- O: independent evaluation of the property on simple shapes
@@ -185,10 +213,190 @@ def _merge_plain(base, over):
     return out
 
 
+_IDX = re.compile(r"^@(?:(\d+)|(next)|(last)|(before|after) (\d+|last))$")
+
+
+def _is_idx(s):
+    return len(s) > 1 and s[0] == "@" and s[1].isascii() and s[1].isalnum()
+
+
+def _at(val, segs, fn):
+    """the value with `fn` applied at the path (None = nothing there); containers on the way are created as the kind of
+    key asks.  Written from the property statement: anything it leaves open raises Unsupported."""
+    if not segs:
+        return fn(val)
+    s = segs[0]
+    if _is_idx(s):
+        m = _IDX.match(s)
+        if not m:
+            raise Unsupported("index spelling")
+        if val is None:
+            lst = []
+        elif isinstance(val, list):
+            lst = list(val)
+        else:
+            raise Unsupported("list index on a non-list")
+        n = len(lst)
+        if m.group(1) is not None:
+            i = int(m.group(1))
+            if i > n + 8:
+                raise Unsupported("far index")
+            while len(lst) <= i:
+                lst.append(None)
+            lst[i] = _at(lst[i], segs[1:], fn)
+        elif m.group(2):
+            lst.append(_at(None, segs[1:], fn))
+        elif m.group(3):
+            if n == 0:
+                raise Unsupported("@last of an empty list")
+            lst[n - 1] = _at(lst[n - 1], segs[1:], fn)
+        else:
+            if len(segs) > 1:
+                raise Unsupported("insert form inside a path")
+            if m.group(5) == "last":
+                if n == 0:
+                    raise Unsupported("last of an empty list")
+                j = n - 1
+            else:
+                j = int(m.group(5))
+            pos = j if m.group(4) == "before" else j + 1
+            if pos > n:
+                raise Unsupported("insert beyond the end")
+            lst.insert(pos, fn(None))
+        return lst
+    if s == "" or s.startswith("@"):
+        raise Unsupported("odd segment")
+    if val is None:
+        out = {}
+    elif isinstance(val, dict):
+        out = dict(val)
+    else:
+        raise Unsupported("map key on a non-map")
+    out[s] = _at(out.get(s), segs[1:], fn)
+    return out
+
+
+def _merge_into(old, v):
+    cur = old
+    for kk in sorted(v, key=G.bkey):
+        cur = edit(cur, kk, v[kk], True)
+    return cur
+
+
+def edit(val, key, v, mt):
+    """one entry `key: v` of a patch literal (mt=False: the key is a path) or of the entries merged over an include / into
+    a map (mt=True: the key is one literal key): set, append / merge (`/+`, `__append`, `__merge`), replace (`/=`)"""
+    if key == "__append":
+        kind, path = "append", ""
+    elif key == "__merge":
+        kind, path = "merge", ""
+    elif key.endswith("/+"):
+        kind, path = "add", key[:-2]
+    elif key.endswith("/="):
+        kind, path = "set", key[:-2]
+    elif mt and (v is None or isinstance(v, dict)):
+        kind, path = "mergeset", key
+    else:
+        kind, path = "set", key
+    if "/+" in path or "/=" in path or path.startswith("__"):
+        raise Unsupported("operator inside the key")
+    if mt:
+        if path.startswith("/") or path.endswith("/"):
+            raise Unsupported("odd literal key")
+        segs = [path] if path else []
+    elif path == "":
+        segs = []
+    else:
+        segs = path.split("/")
+        if any(x == "" for x in segs):
+            raise Unsupported("empty path segment")
+    if kind != "set" and any(_is_idx(x) and re.match(r"^@(before|after)", x) for x in segs):
+        raise Unsupported("append / merge at an insert position")
+
+    def fn(old):
+        if kind == "set":
+            return copy.deepcopy(v)
+        if kind == "mergeset":
+            if v is None:
+                return old
+            if old is None:
+                if not _plain_tree(v):
+                    raise Unsupported("operator keys copied literally")
+                return copy.deepcopy(v)
+            if isinstance(old, dict):
+                return _merge_into(old, v)
+            raise Unsupported("map over non-map")
+        if v is None:
+            if old is None:
+                raise Unsupported("nothing appended to nothing")
+            return old
+        if old is None:
+            if not _plain_tree(v):
+                raise Unsupported("operator keys copied literally")
+            return copy.deepcopy(v)
+        if kind in ("add", "append") and isinstance(old, str) and isinstance(v, str):
+            return old + v
+        if kind in ("add", "append") and isinstance(old, list) and isinstance(v, list):
+            return old + copy.deepcopy(v)
+        if kind in ("add", "merge") and isinstance(old, dict) and isinstance(v, dict):
+            return _merge_into(old, v)
+        raise Unsupported("type clash")
+    return _at(val, segs, fn)
+
+
+def py_customize(docs, name, kvs):
+    """what `<name>.custom.yaml` reloads to after CustomSettings(name).Load(); Customize(k, v)...; Save() — from the contract of
+    the custom file: `patch` is the map of patch keys, `customization` the signature block; entries with null values are not
+    written.  None = outside what this evaluator speaks about."""
+    cn = G.custom_of(name)
+    if not kvs:
+        return docs.get(cn, "\0none")
+    old = docs.get(cn)
+    if old is not None and not isinstance(old, dict):
+        return None
+    root = dict(old or {})
+    patch = dict(root["patch"]) if isinstance(root.get("patch"), dict) else {}
+    for k, v in kvs:
+        patch[k] = v
+    root["patch"] = patch
+    cz = root.get("customization")
+    if cz is not None and not isinstance(cz, dict):
+        return None
+    root["customization"] = dict(cz or {}, generator="verif", modified_time="T", distribution_code_name="verif",
+                                 distribution_version="1", rime_version="V")
+    return G.emit_proj(root)
+
+
 def simple_expect(docs, name):
     """Expected compiled tree of `name` for the fragment: includes of directive-free targets with plain overrides, patch
     lists of literals (or references to directive-free literals) with plain single-segment keys, the automatic custom
     patch of the same form.  Everything else raises Unsupported.  Written from the property statement, not from the code."""
+    if name.endswith(".schema") and name in docs and isinstance(docs[name], dict):
+        # the one schema shape this evaluator speaks about: directive-free, no `import_preset`, no custom patch — it compiles
+        # to itself with `menu` = a copy of default:/menu (when there is one) and its own menu entries merged over it
+        root = docs[name]
+        if G.has_directive(root) or G.custom_of(name) in docs or "import_preset" in json.dumps(root) or not _plain_tree(root):
+            raise Unsupported("schema shape")
+        out = copy.deepcopy(root)
+        d = docs.get("default")
+        if d is None:
+            return out
+        if not isinstance(d, dict) or G.has_directive(d) or "default.custom" in docs or not _plain_tree(d):
+            raise Unsupported("default shape")
+        dm = d.get("menu")
+        if dm is None:
+            return out
+        own = root.get("menu")
+        if own is None and "menu" not in root:
+            out["menu"] = copy.deepcopy(dm)
+        elif isinstance(own, dict) and own:
+            val = copy.deepcopy(dm)
+            for k in sorted(own, key=G.bkey):
+                val = edit(val, k, own[k], True)
+            out["menu"] = val
+        else:
+            raise Unsupported("menu shape")
+        return out
     if name.endswith(".schema") or name.endswith(".custom") or name not in docs or not isinstance(docs[name], dict):
         raise Unsupported("doc kind")
 
@@ -204,6 +412,8 @@ def simple_expect(docs, name):
             d, t = t.split(":", 1)
             if d:
                 doc = d[:-5] if d.endswith(".yaml") else d
+                if doc.endswith(".yaml"):
+                    raise Unsupported("resource named with the extension twice")
         keys = [k for k in t.split("/") if k != ""]
         if t.endswith("/") and keys:
             raise Unsupported("trailing slash")
@@ -269,7 +479,7 @@ def simple_expect(docs, name):
             p = target(cur, p)
             if p is None:
                 return {}
-        if not isinstance(p, dict) or not _plain_tree(p):
+        if not isinstance(p, dict) or G.has_directive(p):
             raise Unsupported("patch shape")
         return p
 
@@ -282,41 +492,66 @@ def simple_expect(docs, name):
         for k, v in t.items():
             if k in ("__include", "__patch"):
                 continue
-            if not _lit_key(k):
-                raise Unsupported("operator key")
             data[k] = ev(cur, v)
         val = data
+        inc = None
         if "__include" in t:
             if not isinstance(t["__include"], str):
                 raise Unsupported("include shape")
             inc = target(cur, t["__include"])
             if inc is not None:
-                if data:
-                    if not isinstance(inc, dict):
-                        raise Unsupported("overrides over non-map")
-                    val = _merge_plain(inc, data)
-                else:
-                    val = inc
+                val = inc
+                for k in sorted(data, key=G.bkey):
+                    val = edit(val, k, data[k], True)
+        if inc is None and not all(_lit_key(k) for k in data):
+            raise Unsupported("operator key")
         patches = []
         if "__patch" in t:
             pv = t["__patch"]
             patches = [literal(cur, x) for x in pv] if isinstance(pv, list) else [literal(cur, pv)]
         elif is_root and (cur + ".custom") in docs:
             cd = docs[cur + ".custom"]
-            if not isinstance(cd, dict) or not _plain_tree(cd):
+            if not isinstance(cd, dict) or G.has_directive(cd):
                 raise Unsupported("custom shape")
             if cd.get("patch") is not None:
                 patches = [literal(cur + ".custom", cd["patch"])]
         for lit in patches:
-            if not lit:
-                continue
-            if not isinstance(val, dict):
-                raise Unsupported("patch on non-map")
-            val = dict(val)
             for k in sorted(lit, key=G.bkey):
-                val[k] = copy.deepcopy(lit[k])
+                val = edit(val, k, lit[k], False)
         return val
     return ev(name, docs[name], True)
+
+
+_PURE_REF = re.compile(r"^([A-Za-z0-9_.]+):/([A-Za-z0-9_]+)$")
+_PLUGIN_KEYS = ("menu", "key_binder", "punctuator", "recognizer")
+
+
+def pure_include_mismatch(docs, name, memt):
+    """include = copy, in its barest form and for every kind of document (schemas included): an entry that is nothing but
+    `{__include: other:/key}` of a directive-free node in a directive-free document without custom patch compiles to that node as
+    written — whatever else the compilation (other entries, the link-time plugins) does with further copies of it.
+    -> (key, reference text, expected, compiled) of the first mismatch, or None"""
+    root = docs.get(name)
+    if not isinstance(root, dict) or not isinstance(memt, dict) or "__include" in root or "__patch" in root or G.custom_of(name) in docs:
+        return None
+    for k in sorted(root, key=G.bkey):
+        v = root[k]
+        if not (isinstance(v, dict) and list(v) == ["__include"] and isinstance(v["__include"], str)):
+            continue
+        if name.endswith(".schema") and k in _PLUGIN_KEYS:
+            continue                                  # the plugins legitimately extend the schema's own copy
+        m = _PURE_REF.match(v["__include"])
+        if not m or m.group(1) == name or m.group(1).endswith((".schema", ".custom", ".yaml")) or not _plain_key(k):
+            continue
+        d = docs.get(m.group(1))
+        if not isinstance(d, dict) or G.has_directive(d) or G.custom_of(m.group(1)) in docs:
+            continue
+        node = d.get(m.group(2))
+        if node is None or not _plain_tree(node):
+            continue
+        if memt.get(k) != node:
+            return (k, v["__include"], node, memt.get(k))
+    return None
 
 
 def gen_simple(rng, idx):
@@ -544,36 +779,99 @@ def tree_of(text):
 
 def judge(case, impl, model):
     """-> (findings, stats).  finding = dict(kind, sig, what, detail[, input_violation])"""
-    F, st = [], {"compiles": 0, "clean_equal": 0, "failed_equal": 0, "best_effort": 0, "o_simple": 0, "o_plain": 0}
+    F, st = [], {"compiles": 0, "clean_equal": 0, "failed_equal": 0, "best_effort": 0, "o_simple": 0, "o_plain": 0, "o_custom": 0}
     docs = case["docs"]
     comp = [op[1] for op in case["ops"] if op[0] == "compile"]
+    # the documents as they are on disk at each compile (CustomSettings sessions rewrite the custom documents)
+    docs_at, cust_ops, now = [], [], docs
+    for op in case["ops"]:
+        if op[0] == "compile":
+            docs_at.append(now)
+        elif op[0] == "customize":
+            exp = py_customize(now, op[1], op[2])
+            cust_ops.append((op, now, exp))
+            if exp is None:
+                now = dict(now)
+                now[G.custom_of(op[1])] = ["\0unknown"]       # not a map: every evaluator declines
+            elif exp != "\0none":
+                now = dict(now)
+                now[G.custom_of(op[1])] = exp
     if impl is None:
         impl = {"res": [], "again": {}, "src": None, "abort": "no output"}
     if impl["abort"] and impl["abort"].startswith("not run"):
         return F, st
     if impl["abort"]:
         kind = "timeout" if impl["abort"] == "timeout" else "sanitizer-or-crash"
-        F.append({"kind": kind, "sig": "C14:" + ("termination" if kind == "timeout" else "sanitizer"), "input_violation": True,
+        where = re.search(r"/src/rime/([\w/]+\.(?:cc|h)):\d+", impl["abort"])
+        F.append({"kind": kind, "sig": "C14:" + ("termination" if kind == "timeout" else "sanitizer" + (":" + os.path.basename(where.group(1)) if where else "")),
+                  "input_violation": True,
                   "what": ("the compiler did not terminate within the watchdog" if kind == "timeout"
                            else "sanitizer abort / crash inside the real compiler") + " on document set " + case["id"],
                   "detail": impl["abort"]})
         return F, st
-    if len(impl["res"]) != len(comp) or (model is not None and len(model) != len(comp)):
+    icust = impl.get("cust", [])
+    if len(impl["res"]) != len(comp) or (model is not None and len(model) != len(comp)) or len(icust) != len(cust_ops) \
+            or (model is not None and cust_ops and len(getattr(model, "cust", [])) != len(cust_ops)):
         F.append({"kind": "protocol", "sig": "C14:protocol", "what": "harness/driver output incomplete for " + case["id"],
                   "detail": {"impl": len(impl["res"]), "model": None if model is None else len(model), "ops": len(comp)}})
         return F, st
+    # ---- O: the custom documents written by the real CustomSettings
+    for j, ((op, before, exp), (cname, cfl, cfile)) in enumerate(zip(cust_ops, icust)):
+        st["o_custom"] = st.get("o_custom", 0) + 1
+        want_saved = "1" if op[2] else "0"
+        got = None if cfile in ("none", "unloadable") else G.untok(cfile)
+        bad = None
+        if cfl.get("saved") != want_saved or cfl.get("modified") != want_saved:
+            bad = "Save()/modified() say %s/%s after %d Customize calls" % (cfl.get("saved"), cfl.get("modified"), len(op[2]))
+        elif cfile == "unloadable":
+            bad = "the custom document written cannot be loaded"
+        elif exp is not None and exp != "\0none" and got != exp:
+            bad = "the custom document written is not the old one with the customized keys set in `patch` and the signature block"
+        elif exp == "\0none" and cfile != "none":
+            bad = "a custom document appeared although nothing was customized"
+        elif op[2] and exp is not None and cfl.get("first_after") != "0":
+            bad = "IsFirstRun() is still true after a signed save"
+        elif cfl.get("first") != ("0" if isinstance(before.get(G.custom_of(op[1])), dict)
+                                  and isinstance(before[G.custom_of(op[1])].get("customization"), dict) else "1"):
+            bad = "IsFirstRun() before the session does not tell whether a signed custom document exists"
+        if bad:
+            F.append({"kind": "custom", "sig": "C14:custom-settings:file", "input_violation": True,
+                      "what": "CustomSettings on %r: %s" % (op[1], bad),
+                      "detail": {"doc": op[1], "customized": op[2], "flags": cfl, "file": cfile,
+                                 "expected": None if exp in (None, "\0none") else G.tok(exp)}})
+        if model is not None:
+            mname, mfl, mfile = model.cust[j]
+            if mfl != cfl or mfile != cfile:
+                F.append({"kind": "custom-corr", "sig": "C14:correspondence:custom-settings",
+                          "what": "CustomSettings session on %r differs from the reference" % op[1],
+                          "detail": {"doc": op[1], "customized": op[2], "impl": [cfl, cfile], "model": [mfl, mfile]}})
+    # ---- O: what CustomSettings shows of the deployed config = the staging file the last compile of that document wrote
+    for j, ((op, before, exp), (nres, pr)) in enumerate(zip(cust_ops, impl.get("custprobe", []))):
+        last = [r for r in impl["res"][:nres] if G.norm_id(r[0]) == op[1]]
+        dep = tree_of(last[-1][3]) if last and last[-1][1] and last[-1][3] not in ("none", "unloadable") else None
+        dep = dep if isinstance(dep, dict) else {}
+        want = {"k": G.hx(dep["k"]) if isinstance(dep.get("k"), str) else "none",
+                "l": G.hx(G.tok(dep["l"])) if isinstance(dep.get("l"), list) else G.hx("n"),
+                "m": G.hx(G.tok(dep["m"])) if isinstance(dep.get("m"), dict) else G.hx("n")}
+        if pr != want:
+            F.append({"kind": "custom", "sig": "C14:custom-settings:deployed-view", "input_violation": True,
+                      "what": "CustomSettings(%r).GetValue/GetList/GetMap do not show the deployed (staging) config" % op[1],
+                      "detail": {"doc": op[1], "shown": pr, "deployed": want}})
     # ---- O: monitors on the implementation's own outputs
     seen = {}
-    for i, (name, ok, mem, saved) in enumerate(impl["res"]):
+    for i, (rawname, ok, mem, saved) in enumerate(impl["res"]):
+        name = G.norm_id(rawname)
+        docs = docs_at[i]
         st["compiles"] += 1
         if saved == "unloadable":
             F.append({"kind": "saved-unloadable", "sig": "C14:saved:unloadable", "input_violation": True,
                       "what": "the staging file written for %r cannot be loaded again" % name, "detail": {"doc": name}})
-        if name in seen and seen[name] != (ok, mem, saved):
+        if name in seen and seen[name][0] is docs and seen[name][1:] != (ok, mem, saved):
             F.append({"kind": "purity", "sig": "C14:purity:recompile-differs", "input_violation": True,
                       "what": "compiling %r again (after other documents were compiled) gives a different result" % name,
                       "detail": {"doc": name, "first": seen[name][1], "again": mem}})
-        seen.setdefault(name, (ok, mem, saved))
+        if name not in seen or seen[name][0] is not docs:
+            seen[name] = (docs, ok, mem, saved)
         if name in docs and isinstance(docs[name], dict) and not G.has_directive(docs[name]) and not name.endswith(".schema") \
                 and (name.endswith(".custom") or (name + ".custom") not in docs):
             st["o_plain"] += 1
@@ -581,6 +879,12 @@ def judge(case, impl, model):
                 F.append({"kind": "plain", "sig": "C14:plain:not-identity", "input_violation": True,
                           "what": "directive-free document %r does not compile to itself" % name,
                           "detail": {"doc": name, "impl_mem": mem, "impl_saved": saved}})
+        pure = pure_include_mismatch(docs, name, tree_of(mem)) if ok else None
+        if pure:
+            F.append({"kind": "alias", "sig": "C14:alias:include-not-a-copy", "input_violation": True,
+                      "what": "in %r the entry %r is nothing but an __include of %s, yet it does not compile to that node as written "
+                              "(something wrote through the shared node)" % (name, pure[0], pure[1]),
+                      "detail": {"doc": name, "key": pure[0], "included": pure[1], "expected": G.tok(pure[2]), "compiled": G.tok(pure[3])}})
         try:
             exp = simple_expect(docs, name)
         except Unsupported:
@@ -595,7 +899,7 @@ def judge(case, impl, model):
                           "what": "compiled %r differs from include-copy / ordered-patch semantics (fragment evaluator)" % name,
                           "detail": {"doc": name, "expected": G.tok(exp), "impl_mem": mem, "impl_saved": saved}})
     for name, text in impl["again"].items():
-        last = [r for r in impl["res"] if r[0] == name][-1]
+        last = [r for r in impl["res"] if G.norm_id(r[0]) == name][-1]
         if text != last[2]:
             F.append({"kind": "alias", "sig": "C14:alias:result-mutated-later", "input_violation": True,
                       "what": "the in-memory result of %r changed after later compilations" % name,
@@ -636,6 +940,8 @@ def judge(case, impl, model):
 def clause_of(docs, name):
     t = json.dumps(docs.get(name))
     c = []
+    if name.endswith(".schema"):
+        c.append("schema-default-menu")
     if "__include" in t:
         c.append("include-copy")
     if "__patch" in t:
@@ -763,9 +1069,14 @@ def run(c):
     cases += [gen_listref(c.rng, i) for i in range(n_dir)] + [gen_rootinc(c.rng, i) for i in range(n_dir)]
     cases += [gen_prefixsib(c.rng, i) for i in range(n_dir)] + [gen_viamid(c.rng, i) for i in range(n_dir)]
     cases += [gen_manypatch(c.rng, i) for i in range(max(20, n_dir // 5))]
+    # round-2 families (coverage review): see checks/c14_cov.py
+    n_eg, n_cov = (900, 150) if quick else (12000, 2500)
+    cases += [V.gen_editgrid(c.rng, i) for i in range(n_eg)] + [V.gen_oddref(c.rng, i) for i in range(n_cov)]
+    cases += [V.gen_schema(c.rng, i) for i in range(n_cov * 2)] + [V.gen_deep(c.rng, i) for i in range(n_cov)]
+    cases += [V.gen_names(c.rng, i) for i in range(n_cov // 2)] + [V.gen_custom(c.rng, i) for i in range(n_cov)]
     cases += [G.gen_case(c.rng, i, "acyclic") for i in range(n_ac)]
     arb = [G.gen_case(c.rng, i, "arbitrary") for i in range(n_ar)]
-    stats = {"compiles": 0, "clean_equal": 0, "failed_equal": 0, "best_effort": 0, "o_simple": 0, "o_plain": 0}
+    stats = {"compiles": 0, "clean_equal": 0, "failed_equal": 0, "best_effort": 0, "o_simple": 0, "o_plain": 0, "o_custom": 0}
     findings, feats, nontrivial, model_skipped = [], {}, set(), 0
     batches = [cases[i:i + 1500] for i in range(0, len(cases), 1500)] + [arb[i:i + 500] for i in range(0, len(arb), 500)]
     samples = []
@@ -776,22 +1087,7 @@ def run(c):
         try:
             # cyclic sets can make the memo-less reference explode: bounded, and then only termination/monitors count
             text_timeout = 900 if batch[0].get("mode") != "arbitrary" else 120
-            t0 = time.time()
-            text = vlib.run_driver("driver_c14", "".join(G.case_text(k) for k in batch), timeout=text_timeout)
-            R.model_s += time.time() - t0
-            model = {}
-            lines = text.splitlines()
-            i = 0
-            while i < len(lines):
-                p = lines[i].split(" ")
-                if p[0] == "res":
-                    fl = {k2: v == "1" for k2, v in (x.split("=") for x in p[3:])}
-                    model.setdefault(p[1], []).append((G.unhx(p[2]), fl, lines[i + 1][4:], lines[i + 2][6:]))
-                    i += 3
-                else:
-                    if p[0] == "bad-op":
-                        raise vlib.BuildError("driver_c14 rejected a line of the case file")
-                    i += 1
+            model = R.model(batch, timeout=text_timeout)
         except vlib.BuildError:
             raise
         except Exception as e:
@@ -852,14 +1148,14 @@ def run(c):
                                              "the C++ dependency-graph algorithm equals the reference: differential check only (partial)"])
     cov.update({
         "evaluations": stats["compiles"], "distinct_nontrivial": len(nontrivial),
-        "rule": ("document sets: corpus (%d; repo fixtures re-translated from %s/data/test on this run + corpus/C14) + %d simple-fragment + 4x%d directed (list-element references in every index spelling, forward and backward; root include with custom patch; sibling keys that are string prefixes of one another; references through a node with directives of its own) + %d "
+        "rule": ("document sets: corpus (%d; repo fixtures re-translated from %s/data/test on this run + corpus/C14) + %d simple-fragment + 4x%d directed (list-element references in every index spelling, forward and backward; root include with custom patch; sibling keys that are string prefixes of one another; references through a node with directives of its own) + %d edit-grid (existing value x new value x key form x operator, in patches and beside includes) + %d each odd reference texts / deep pending children / 2x schema presets / names (.yaml spelling, missing, sub-directory) / CustomSettings sessions + %d "
                  "acyclic-grammar + %d arbitrary (cyclic) sets; every document of a set is compiled by the real ConfigBuilder (in-memory "
                  "tree + re-loaded staging YAML) and by the Lean reference; non-trivial = a set containing directives with at least one "
-                 "compile on which the reference run is clean+successful and equal, distinct by set text" % (n_corpus, vlib.REPO, n_si, n_dir, n_ac, n_ar)),
+                 "compile on which the reference run is clean+successful and equal, distinct by set text" % (n_corpus, vlib.REPO, n_si, n_dir, n_eg, n_cov, n_ac, n_ar)),
         "samples": samples or [strip_case(cases[0])],
         "compiles": stats["compiles"], "clean_equal": stats["clean_equal"], "failed_flag_equal": stats["failed_equal"],
         "best_effort_not_compared": stats["best_effort"], "o_simple_fragment_evaluations": stats["o_simple"],
-        "o_plain_evaluations": stats["o_plain"], "arbitrary_sets_terminated": len(arb), "model_skipped_sets": model_skipped,
+        "o_plain_evaluations": stats["o_plain"], "o_custom_settings_sessions": stats["o_custom"], "arbitrary_sets_terminated": len(arb), "model_skipped_sets": model_skipped,
         "sanitizer_aborts": len(R.san_reports), "findings": len(findings), "feature_counts": dict(sorted(feats.items())),
         "impl_seconds": round(R.impl_s, 1), "model_seconds": round(R.model_s, 1), "generator_version": G.GEN_VERSION,
         "source_hash": vlib.source_hash(SRC_FILES), "proof_failures": audit["failures"],
